@@ -3,7 +3,13 @@ package rng
 
 type R struct{ s uint64 }
 
-func New(seed uint64) *R { return &R{s: seed*0x9E3779B97F4A7C15 + 0x1234567} }
+// New: the state is a finalised hash of the seed (with a plain affine map, consecutive seeds would yield the
+// same stream shifted by one step, and a sweep over seeds would revisit the same cases).
+func New(seed uint64) *R {
+	r := &R{s: seed*0x9E3779B97F4A7C15 + 0x1234567}
+	r.s = r.U64() ^ (seed << 32)
+	return r
+}
 
 func (r *R) U64() uint64 {
 	r.s += 0x9E3779B97F4A7C15
